@@ -14,22 +14,32 @@ namespace SR.C02
 
 open SR
 
-/-- Full statement (extended solver, coherent region): every returned solution
-    is a valid ordered super-reconciliation and no valid one is cheaper. -/
-def C02_ext_statement : Prop :=
-  ∀ (c : Costs) (S : RTree) (o : OTree) (pre : Option (List Nat)),
-    c.spe + 2 * c.sloss ≤ c.dup + 2 * c.floss →
-    ∀ sol ∈ spfs c S false o pre,
-      Spec.validSol .ordered o sol = true ∧
-      Cost.le (totalCost c .ordered o sol) (Spec.optimum c S .ordered false false o pre).1 = true
+/-- Leaf syntenies of an input (guards below). -/
+def leafSyns : OTree → List (List Nat)
+  | .leaf _ f => [f]
+  | .node l r => leafSyns l ++ leafSyns r
 
-/-- Full statement (base solver): optimum among solutions using the LCA mapping. -/
-def C02_base_statement : Prop :=
-  ∀ (c : Costs) (S : RTree) (o : OTree) (pre : Option (List Nat)),
+def leafSps : OTree → List Path
+  | .leaf sp _ => [sp]
+  | .node l r => leafSps l ++ leafSps r
+
+/-- Full statement (both solvers: `base = false` extended, `base = true` LCA
+    mapping), for well-formed inputs (binary species tree containing the leaf
+    species, non-empty leaf syntenies) inside the coherent region: every
+    returned solution is a valid ordered super-reconciliation and its cost is at
+    most the optimum over all species mappings, root orders and labellings as
+    computed by the specification oracle.  PROVED as `C02_spfs_none` /
+    `C02_spfs` in `Properties/C02Dp.lean`; the adequacy of the oracle itself
+    (`Spec.optimum` ≤ every valid sequence-labelled solution) is
+    `Properties/C02Spec.lean`. -/
+def C02_statement : Prop :=
+  ∀ (c : Costs) (S : RTree) (o : OTree) (base : Bool),
+    S.isBinary = true → (∀ p ∈ leafSps o, S.isNode p = true) →
+    (∀ f ∈ leafSyns o, f ≠ []) →
     c.spe + 2 * c.sloss ≤ c.dup + 2 * c.floss →
-    ∀ sol ∈ spfs c S true o pre,
+    ∀ sol ∈ spfs c S base o none,
       Spec.validSol .ordered o sol = true ∧
-      Cost.le (totalCost c .ordered o sol) (Spec.optimum c S .ordered true false o pre).1 = true
+      Cost.le (totalCost c .ordered o sol) (Spec.optimum c S .ordered base false o none).1 = true
 
 /-- Proved part: the result is exactly the set of decoded table solutions (over
     all root orders) of minimum evaluated cost, each once. -/
